@@ -33,7 +33,7 @@ def both(q1=320_000, t1=12_000_000, q2=96_000, t2=4_000_000):
 PLAN = {
     "C01": {"level": "exploration", "parts": both() + [poll(16_000, 400_000)]},
     "C03": {"level": "exploration", "parts": [l2(160_000, 6_000_000), sched(400_000, 8_000_000)]},
-    "C04": {"level": "exploration", "parts": both()},
+    "C04": {"level": "exploration", "parts": both() + [sched(300_000, 6_000_000)]},
     "C05": {"level": "exploration", "parts": both()},
     "C06": {"level": "exploration", "parts": both()},
     "C07": {"level": "exploration", "parts": both()},
@@ -43,7 +43,7 @@ PLAN = {
     "C11": {"level": "exploration", "parts": [l2(160_000, 6_000_000), poll(16_000, 400_000)]},
     "C12": {"level": "exploration", "parts": [l2(160_000, 6_000_000), sched(400_000, 8_000_000)]},
     "C13": {"level": "exploration", "parts": [l2(160_000, 6_000_000)]},
-    "C14": {"level": "exploration", "parts": [l2(96_000, 3_000_000)]},
+    "C14": {"level": "exploration", "parts": [l2(96_000, 3_000_000), sched(300_000, 6_000_000)]},
     "C15": {"level": "exploration", "parts": [l2(160_000, 6_000_000), sched(400_000, 8_000_000)]},
     "C17": {"level": "exploration", "parts": [sched(800_000, 16_000_000)]},
     "C18": {"level": "exploration", "parts": [sched(800_000, 16_000_000)]},
